@@ -11,7 +11,10 @@ from props.C17 import EXTRA_SQL, reachable, names_in, select_cases, stmt_key
 
 sys.setrecursionlimit(20000)
 
-HEADER = ("Require Import SqlV.Base SqlV.Univ SqlV.Visit SqlVGen.TypeEnv SqlVProps.C16.\nFrom Coq Require Import ZArith.\n")
+# case files depend on the model and the generated environment only, so the correspondence still
+# runs when a proof or a side condition of Properties/C16.v is broken
+HEADER = ("Require Import SqlV.Base SqlV.Univ SqlV.Visit SqlVGen.TypeEnv.\nFrom Coq Require Import ZArith.\n"
+          "Definition visit_env : env := Eval vm_compute in reach_env type_env_full [s2l \"Statement\"].\n")
 NODE_HOOKS = {"Expr": "visit_expr", "Statement": "visit_statement", "Query": "visit_query", "TableFactor": "visit_table_factor"}
 REL = "visit_relation"
 # relation spec (mirrors Properties/C16.v dml_positions): declaration, variant -> ObjectName-typed fields
@@ -375,7 +378,10 @@ def check(run):
         run.sample({"sql": stmts[0]["sql"], "dialect": stmts[0]["dialect"], "callbacks": len(stmts[0]["trace"]), "oracle": "ok"})
 
     # ---- model vs implementation in the kernel VM
-    model_ok = os.path.exists(os.path.join(COQ, "theories/Visit.vo")) and os.path.exists(os.path.join(COQ, "Properties/C16.vo"))
+    deps_ok = True
+    if not pr["make_ok"]:
+        deps_ok, _ = coq_make(["theories/Visit.vo", "gen/TypeEnv.vo"])
+    model_ok = deps_ok and os.path.exists(os.path.join(COQ, "theories/Visit.vo")) and os.path.exists(os.path.join(COQ, "gen/TypeEnv.vo"))
     corr_bad = []
     if model_ok:
         for s in stmts:
@@ -383,7 +389,7 @@ def check(run):
         sel = select_cases(run, stmts, 500 if not thorough else 10 ** 9, 2500 if not thorough else 20000)
         corr_bad = correspondence(run, sel)
     else:
-        run.notes["correspondence"] = "not run: Properties/C16.vo does not build"
+        run.notes["correspondence"] = "not run: theories/Visit.vo or gen/TypeEnv.vo does not build"
 
     # ---- broken obligations
     issues = diagnose(env)
